@@ -78,10 +78,15 @@ fn main() {
         }
         CUR.store(rid, Ordering::SeqCst);
         DEADLINE.store(t0.elapsed().as_millis() as u64 + 5000, Ordering::SeqCst);
+        let trace = rq["trace"].as_bool().unwrap_or(false);
         let r = std::panic::catch_unwind(move || {
             rt::reset();
+            if trace {
+                lalrpop_util::state_machine::verif::start();
+            }
             gen::dispatch(&m, &start, rt::Stream::new(items))
         });
+        let events = lalrpop_util::state_machine::verif::take();
         DEADLINE.store(0, Ordering::SeqCst);
         let mut o = match r {
             Ok(Some(v)) => v,
@@ -90,6 +95,9 @@ fn main() {
                 .or_else(|| p.downcast_ref::<&str>().map(|s| s.to_string())).unwrap_or_default()}),
         };
         o["rid"] = json!(rid);
+        if trace {
+            o["trace"] = Value::Array(events.iter().map(|e| serde_json::from_str(e).unwrap_or(json!({"bad": e}))).collect());
+        }
         let mut f = out.lock().unwrap();
         writeln!(f, "{}", o).unwrap();
         f.flush().unwrap();
